@@ -342,6 +342,37 @@ func caRootSetCASTxn(tx WriteTxn, idx, cidx uint64, rs []*structs.CARoot) error 
 	return nil
 }
 
+// CARootSetAndConfigCAS replaces the CA root set and the CA configuration in a
+// single transaction: either both conditional writes apply or neither does.
+// It returns false if the roots index did not match, and an error if the
+// configuration's ModifyIndex did not match.
+func (s *Store) CARootSetAndConfigCAS(idx, rootsIdx uint64, rs []*structs.CARoot, config *structs.CAConfiguration) (bool, error) {
+	tx := s.db.WriteTxn(idx)
+	defer tx.Abort()
+
+	if err := caRootSetCASTxn(tx, idx, rootsIdx, rs); err != nil {
+		if err == errCARootsIndexMismatch {
+			return false, nil
+		}
+		return false, err
+	}
+
+	existing, err := tx.First(tableConnectCAConfig, "id")
+	if err != nil {
+		return false, fmt.Errorf("failed CA config lookup: %s", err)
+	}
+	e, ok := existing.(*structs.CAConfiguration)
+	if (ok && e.ModifyIndex != config.ModifyIndex) || (!ok && config.ModifyIndex != 0) {
+		return false, errors.Errorf("ModifyIndex did not match existing")
+	}
+	if err := s.caSetConfigTxn(idx, tx, config); err != nil {
+		return false, err
+	}
+
+	err = tx.Commit()
+	return err == nil, err
+}
+
 // CAProviderState is used to pull the built-in provider states from the snapshot.
 func (s *Snapshot) CAProviderState() ([]*structs.CAConsulProviderState, error) {
 	ixns, err := s.tx.Get(tableConnectCABuiltin, "id")
